@@ -107,15 +107,27 @@ def run(ctx):
     feats = collections.Counter()
     n_dag = 90 if quick else 700
     import itertools
+    import random as _random
+    from harness import c04_ifinits, c04_shapeov
+    # hand-built families shared with C04 (own generator derived from the seed: the random DAG stream keeps its sequence): constant-condition
+    # Ifs whose taken branches own initializers with clashing names; shape-like overridable initializer-inputs (feeds with override values)
+    fam_rng = _random.Random(f"{ctx.seed}:C03:families")
     for c in itertools.chain(K.corpus_stream(rng, "C03"), K.alias_stream(rng, 15 if quick else 60),
                              K.pass_family_stream(rng, 15 if quick else 60),
+                             c04_shapeov.cases(fam_rng), c04_ifinits.cases(fam_rng, quick),
                              K.dag_stream(rng, n_dag, overridable_every=9, start=1000)):
         if not isinstance(c, G.Case):
             discards["generator-error: " + c[1][:60]] += 1
             continue
         base, reason = K.validity(c)
         if base is None:
-            discards[reason.split(":")[0].split("(")[0].strip()] += 1
+            discards[(c.kind + ": " if c.kind in ("if-inits", "shape-ov") else "") + reason.split(":")[0].split("(")[0].strip()] += 1
+            continue
+        if c.kind in ("if-inits", "shape-ov"):
+            stats["family:" + c.kind + ":valid-models"] += 1
+            feats[c.features[0]] += 1
+            ctx.case((c.kind, tuple(c.features[:4])))
+            K.differential(ctx, c, base, c.plan, stats)
             continue
         stats["valid-dag-models"] += 1
         for f in c.features:
